@@ -12,10 +12,20 @@ TIE = {'core.AllowOverhang / LevelOverhang / AdjustedSeatCount': 'correspondence
 RULE = ('corpus; second-vote dictionaries over 2..6 parties, house 1..40, direct-seat maps with sum <= house (parties outside the tier, '
         'parties without votes, zero entries), proportional evaluator in {D\'Hondt, Sainte-Lague, Hare largest remainder}; AllowOverhang and '
         'LevelOverhang inside AdjustedSeatCount, also wrapped in MultistageDistributor with a first-stage fixed result (NZ/DE shape). '
-        'Compared with the model (adjustment and final gains) and judged by the declarative clauses on the implementation: adjustment >= 0, '
-        'zero without overhang, level minimality against an independent search, every party keeps its direct seats, house grows by exactly '
-        'the adjustment. non-trivial = overhang present or a party outside the tier; distinct by case hash')
-PARTIAL = ['LevelOverhangByConstituency: exercised through the DE-style wrapper with implementation-side clauses only (no model)']
+        'Streams random / alabama: every case on freshly built objects. Stream reuse: sequences of 2..5 elections answered by ONE inner '
+        'evaluator, ONE calculator, ONE AdjustedSeatCount and ONE MultistageDistributor; an election differs from its predecessor in one '
+        'aspect (vote counts with the same parties / house / direct seats, one party\'s votes, two votes swapped, house size, direct-seat '
+        'counts, direct-seat map, dictionary order, wrapping, party set) or repeats an earlier one; every call of a sequence is a case '
+        '(its history is part of the case and is re-run on replay). '
+        'Every case compared with the model (adjustment and final gains) and judged by the declarative clauses on the implementation: '
+        'adjustment >= 0, zero without overhang, level minimality against an independent search, every party keeps its direct seats, house '
+        'grows by exactly the adjustment. Stream by-constituency: LevelOverhangByConstituency alone, and inside AdjustedSeatCount(.., ByParty) '
+        'in a depth-2 MultistageDistributor (DE shape), on fresh objects and on objects reused for 2..4 elections, against an independent '
+        'search (minimum of a tier party = sum over constituencies of max(direct, proportional)). '
+        'non-trivial = overhang present or a party outside the tier; distinct by case hash')
+PARTIAL = ['LevelOverhangByConstituency: no model; judged on the implementation side against an independent search (adjustment; in the DE '
+           'shape: no direct seat lost, party totals = proportional distribution of the enlarged house when all direct seats belong to tier '
+           'parties); elections with a tie inside the inner evaluator are not judged (the levelling loop does not end on a Tie)']
 TRUSTED = []
 DIV = {1: 'd_hondt', 2: 'sainte_lague'}
 
@@ -37,20 +47,35 @@ def model_line(c):
 
 
 def run_impl(c):
+    """One evaluator object, one calculator object, one AdjustedSeatCount and one MultistageDistributor per case: the elections of
+    c['history'] (if any) are evaluated on them first, in order, and their outcomes ignored; the answer is the one of the last call."""
     import votelib.evaluate.core as core
     ev = evaluator(c['ev'])
     calc = core.AllowOverhang(ev) if c['kind'] == 'allow' else core.LevelOverhang(ev)
-    votes = {cname(k): v for k, v in c['votes']}
-    prev = {cname(k): v for k, v in c['prev']}
-    adj = calc.calculate(votes, c['n'], prev_gains=prev)
-    if c.get('wrap'):
-        ms = core.MultistageDistributor([core.FixedSeatCount(_Fixed(prev), 0) if False else _FixedStage(prev),
-                                         core.AdjustedSeatCount(calc, ev)])
-        total = ms.evaluate(votes, c['n'])
-        final = {k: total.get(k, 0) - prev.get(k, 0) for k in total}
-    else:
-        final = core.AdjustedSeatCount(calc, ev).evaluate(votes, c['n'], prev_gains=prev)
-    return adj, final
+    asc = core.AdjustedSeatCount(calc, ev)
+    stage = _FixedStage({})
+    ms = core.MultistageDistributor([stage, asc])
+
+    def election(e):
+        votes = {cname(k): v for k, v in e['votes']}
+        prev = {cname(k): v for k, v in e['prev']}
+        adj = calc.calculate(votes, e['n'], prev_gains=prev)
+        if e.get('wrap'):
+            stage.seats = prev
+            total = ms.evaluate(votes, e['n'])
+            final = {k: total.get(k, 0) - prev.get(k, 0) for k in total}
+        else:
+            final = asc.evaluate(votes, e['n'], prev_gains=prev)
+        return adj, final
+
+    for e in c.get('history', ()):
+        try:
+            election(e)
+        except common.ImplTimeout:
+            raise
+        except Exception:   # noqa  an earlier election may be refused (tie, over-award); the object must still answer the next one
+            pass
+    return election(c)
 
 
 class _FixedStage:
@@ -174,6 +199,79 @@ def gen(rng, count):
                    wrap=rng.random() < 0.25)
 
 
+ASPECTS = ['votes', 'votes', 'votes', 'votes', 'one-vote', 'swap-votes', 'n', 'prev-counts', 'prev-keys', 'order', 'repeat', 'back', 'wrap',
+           'parties']
+
+
+def _draw_prev(rng, pool, n):
+    prev, budget = [], rng.randint(0, n)
+    for k in rng.sample(pool, rng.randint(0, len(pool))):
+        s = rng.randint(0, min(budget, 6))
+        budget -= s
+        prev.append([k, s])
+    return prev
+
+
+def gen_reuse(rng, count, dist=None):
+    """Sequences of 2..5 elections evaluated one after the other on ONE evaluator / calculator / AdjustedSeatCount / MultistageDistributor
+    (run_impl): every election of a sequence is a case of its own whose 'history' lists the elections the objects have already seen.
+    An election differs from its predecessor in ONE aspect: the vote counts (same parties, same order, same house, same direct seats - the
+    usual way an evaluator is reused: the next election), one party's votes, two parties' votes swapped, the house size, the direct-seat
+    counts, the direct-seat map, the insertion order of the dictionaries, the wrapping, the party set; or it repeats the predecessor
+    or an earlier election of the sequence."""
+    import copy
+    for _ in range(count):
+        m = rng.randint(2, 6)
+        ids = list(range(1, m + 1))
+        lo, hi = rng.choice([(50, 999), (1, 200), (1, 20), (10 ** 6, 10 ** 6 + 9)])
+        draw = lambda: rng.randint(lo, hi)
+        n = rng.randint(1, 40)
+        pool = ids + ([m + 1] if rng.random() < 0.3 else [])
+        cur = dict(votes=[[k, draw()] for k in ids], n=n, prev=_draw_prev(rng, pool, n), wrap=rng.random() < 0.4)
+        kind, ev = rng.choice(['allow', 'level']), rng.choice([['ha', 1], ['ha', 2], ['lr']])
+        steps, varied = [cur], ['first']
+        for _ in range(rng.randint(1, 4)):
+            cur = copy.deepcopy(cur)
+            a = rng.choice(ASPECTS)
+            if a == 'votes':
+                cur['votes'] = [[k, draw()] for k, _ in cur['votes']]
+            elif a == 'one-vote':
+                rng.choice(cur['votes'])[1] = draw()
+            elif a == 'swap-votes':
+                i, j = rng.sample(range(len(cur['votes'])), 2)
+                cur['votes'][i][1], cur['votes'][j][1] = cur['votes'][j][1], cur['votes'][i][1]
+            elif a == 'n':
+                cur['n'] = rng.randint(max(1, sum(v for _, v in cur['prev'])), 40)
+            elif a == 'prev-counts':
+                budget = cur['n']
+                for kv in cur['prev']:
+                    kv[1] = rng.randint(0, min(budget, 6))
+                    budget -= kv[1]
+            elif a == 'prev-keys':
+                ks = [k for k, _ in cur['votes']]
+                cur['prev'] = _draw_prev(rng, ks + ([max(ks) + 1] if rng.random() < 0.3 else []), cur['n'])
+            elif a == 'order':
+                rng.shuffle(cur['votes'])
+                rng.shuffle(cur['prev'])
+            elif a == 'back':
+                cur = copy.deepcopy(rng.choice(steps))
+            elif a == 'wrap':
+                cur['wrap'] = not cur['wrap']
+            elif a == 'parties':
+                ks = [k for k, _ in cur['votes']]
+                if len(ks) > 2 and rng.random() < 0.5:
+                    cur['votes'].remove(rng.choice(cur['votes']))
+                elif len(ks) < 6:
+                    cur['votes'].append([max(ks + [k for k, _ in cur['prev']]) + 1, draw()])
+            steps.append(cur)
+            varied.append(a)
+        for i, e in enumerate(steps):
+            if dist is not None:
+                dist['reuse-varied:' + varied[i]] += 1
+            yield dict(unit='overhang', kind=kind, ev=ev, votes=e['votes'], n=e['n'], prev=e['prev'], wrap=e['wrap'],
+                       history=steps[:i], varied=varied[i])
+
+
 def gen_alabama(rng, count):
     """Hare largest remainder profiles with an Alabama paradox near the house size, plus overhang"""
     import votelib.evaluate.proportional as prop
@@ -199,87 +297,180 @@ def gen_alabama(rng, count):
         yield dict(unit='overhang', kind='level', ev=['lr'], votes=votes, n=n, prev=prev, wrap=False)
 
 
-def by_constituency_checks(ctx, rng, count):
-    """LevelOverhangByConstituency against an independent search (inner evaluators used as black boxes)"""
-    import votelib.convert, votelib.evaluate.core as core, votelib.evaluate.proportional as prop
+def bc_reference(ev, e, cty_seats):
+    """independent search for one by-constituency election (inner evaluator used as a black box, on an object of its own):
+    None when a tie / refusal of the inner evaluator leaves the answer open, else (smallest admissible enlargement, seats of parties
+    outside the tier, national distribution of the enlarged house)"""
+    import votelib.convert, votelib.evaluate.core as core
+    votes, direct = e['votes'], e['direct']
+    n_seats = sum(cty_seats.values())
+    try:
+        cty_prop = {c: ev.evaluate(votes[c], cty_seats[c]) for c in votes}
+        if any(isinstance(k, core.Tie) for r in cty_prop.values() for k in r):
+            return None
+        # tier = parties with a proportional seat in some constituency; a tier party's minimum is the sum over ALL constituencies of
+        # max(direct seats, proportional seats) there - also where it has direct seats but no proportional seat
+        tier = {p for res in cty_prop.values() for p, sres in res.items() if sres}
+        minima = {p: sum(max(direct.get(c, {}).get(p, 0), cty_prop[c].get(p, 0)) for c in votes) for p in tier}
+        drop = sum(sd for d in direct.values() for p, sd in d.items() if p not in tier)
+        nat_votes = votelib.convert.VoteTotals().convert(votes)
+        house = n_seats - drop
+        for _ in range(300):
+            nat = ev.evaluate(nat_votes, house)
+            if any(isinstance(k, core.Tie) for k in nat):
+                return None
+            if all(nat.get(p, 0) >= mm for p, mm in minima.items()):
+                return house + drop - n_seats, drop, nat
+            house += 1
+    except Exception:   # noqa
+        return None
+    return None
+
+
+def bc_check(ctx, case):
+    """One by-constituency case: ONE LevelOverhangByConstituency object, ONE AdjustedSeatCount around it (DE shape: ByParty as the
+    evaluator) and ONE MultistageDistributor answer the elections of case['history'] first (outcomes ignored) and then the case's own
+    election, which is judged.  Returns the number of deviations reported."""
+    import votelib.evaluate.core as core, votelib.evaluate.proportional as prop
+    ev = prop.HighestAverages(case['ev'])
+    cty_seats = case['cty_seats']
+    n_seats = sum(cty_seats.values())
+    calc = core.LevelOverhangByConstituency(constituency_evaluator=core.ByConstituency(ev, apportioner=cty_seats), overall_evaluator=ev)
+    calc0 = core.LevelOverhangByConstituency(constituency_evaluator=core.ByConstituency(ev, apportioner=ev))
+    stage = _FixedStage({})
+    ms = core.MultistageDistributor([stage, core.AdjustedSeatCount(calc, core.ByParty(ev, ev))], depth=2)
+
+    def election(e):
+        r = common.call_impl(lambda: calc.calculate(e['votes'], n_seats, prev_gains=e['direct']), 10)
+        r2 = common.call_impl(lambda: calc0.calculate(e['votes'], n_seats, prev_gains=e['direct']), 10) if case.get('default') else None
+        stage.seats = e['direct']
+        r3 = common.call_impl(lambda: ms.evaluate(e['votes'], n_seats), 10)
+        return r, r2, r3
+
+    for e in case.get('history', ()):
+        if bc_reference(prop.HighestAverages(case['ev']), e, cty_seats) is not None:
+            election(e)     # (an election with a tie inside is not put to the objects: the levelling loop does not end on a Tie)
+    ref = bc_reference(prop.HighestAverages(case['ev']), case, cty_seats)
+    if ref is None:
+        return 0
+    want, drop, nat = ref
+    ctx.nontrivial.add(common.case_hash(case))
+    r, r2, r3 = election(case)
     bad = 0
-    for i in range(count):
-        ctx.evaluations += 1
-        ev = prop.HighestAverages(rng.choice(['sainte_lague', 'd_hondt']))
+
+    def report(impl, model, why):
+        ctx.violations.append(dict(stream='by-constituency', case=case, impl=str(impl), model=model, why=why))
+        return 1
+    if r2 is not None:
+        # default overall evaluator (sum of the constituency results): must answer with a non-negative adjustment
+        if not (r2[0] == 'ok' and r2[1] >= 0) and not (r2[0] == 'err' and r2[1] in (common.E['TIMEOUT'], common.E['VSE'], common.E['VALUE'])):  # VALUE: house 0
+            bad += report(r2, 'n/a', 'LevelOverhangByConstituency without overall_evaluator: %s' % (r2,))
+    got = r[1] if r[0] == 'ok' else ('error', r[2])
+    if got != want:
+        bad += report(got, 'reference %d' % want, 'LevelOverhangByConstituency reports %s, the smallest admissible enlargement is %d' % (got, want))
+    # DE shape: first stage hands out the direct seats, AdjustedSeatCount(LevelOverhangByConstituency, ByParty) the rest
+    # (judged when all direct seats belong to tier parties - the tier of the constituency evaluator and the one of the national
+    # evaluator are the same set then)
+    if drop:
+        pass
+    elif r3[0] != 'ok':
+        if r3[1] != common.E['VSE']:
+            bad += report(('error', r3[2]), 'reference %d' % want, 'AdjustedSeatCount(LevelOverhangByConstituency) in a MultistageDistributor raises %s' % r3[2])
+    elif not any(isinstance(k, core.Tie) for d in r3[1].values() for k in d):
+        total = r3[1]
+        lost = [(c, p) for c, d in case['direct'].items() for p, sd in d.items() if total.get(c, {}).get(p, 0) < sd]
+        if lost:
+            bad += report(total, 'direct %s' % case['direct'], 'direct seats lost in %s' % lost)
+        else:
+            # the party totals are the proportional distribution of the enlarged house
+            tot = {}
+            for d in total.values():
+                for p, sd in d.items():
+                    tot[p] = tot.get(p, 0) + sd
+            tot = {p: sd for p, sd in tot.items() if sd}
+            natw = {p: sd for p, sd in nat.items() if sd}
+            if tot != natw:
+                bad += report(tot, 'reference %s' % natw, 'DE shape: party totals %s, the proportional distribution of the house enlarged by %d is %s' % (tot, want, natw))
+    return bad
+
+
+def gen_bc(rng, count, dist=None):
+    """by-constituency cases; half of them first of a block of 2..4 elections that share evaluator, parties, constituencies and their
+    seats and are answered by the same objects (bc_check): later elections differ from the predecessor in the vote counts (mostly), the
+    votes of one constituency, or the direct seats, or repeat an earlier election of the block"""
+    import copy
+    made = 0
+    while made < count:
+        evn = rng.choice(['sainte_lague', 'd_hondt'])
         parties = ['A', 'B', 'C', 'D'][:rng.randint(2, 4)]
         ctys = ['N', 'S', 'W'][:rng.randint(2, 3)]
-        votes = {c: {p: rng.choice([rng.randint(10, 500), rng.randint(0, 60)]) for p in parties} for c in ctys}
-        for c in ctys:
-            if sum(votes[c].values()) == 0:
-                votes[c][parties[0]] = 10
+
+        def draw_votes(c):
+            v = {p: rng.choice([rng.randint(10, 500), rng.randint(0, 60)]) for p in parties}
+            if sum(v.values()) == 0:
+                v[parties[0]] = 10
+            return v
+
+        def draw_direct():
+            d = {c: {p: rng.randint(0, 2) for p in rng.sample(parties + ['IND'], rng.randint(0, len(parties)))} for c in ctys}
+            return {c: {p: sd for p, sd in dd.items() if sd} for c, dd in d.items()}
         cty_seats = {c: rng.randint(2, 7) for c in ctys}
-        direct = {c: {p: rng.randint(0, 2) for p in rng.sample(parties + ['IND'], rng.randint(0, len(parties)))} for c in ctys}
-        direct = {c: {p: s for p, s in d.items() if s} for c, d in direct.items()}
-        n_seats = sum(cty_seats.values())
-        case = dict(votes=votes, cty_seats=cty_seats, direct=direct)
-        try:
-            cty_prop = {c: ev.evaluate(votes[c], cty_seats[c]) for c in ctys}
-            if any(isinstance(k, core.Tie) for r in cty_prop.values() for k in r):
-                continue
-            minima = {}
-            for c, res in cty_prop.items():
-                for p, sres in res.items():
-                    minima[p] = minima.get(p, 0) + max(direct.get(c, {}).get(p, 0), sres)
-            dt = {}
-            for d in direct.values():
-                for p, sd in d.items():
-                    dt[p] = dt.get(p, 0) + sd
-            drop = sum(sd for p, sd in dt.items() if p not in minima)
-            nat_votes = votelib.convert.VoteTotals().convert(votes)
-            house = n_seats - drop
-            tie = False
-            for _ in range(300):
-                nat = ev.evaluate(nat_votes, house)
-                if any(isinstance(k, core.Tie) for k in nat):
-                    tie = True
-                    break
-                if all(nat.get(p, 0) >= mm for p, mm in minima.items()):
-                    break
-                house += 1
-            if tie:
-                continue
-            want = house + drop - n_seats
-            r = common.call_impl(lambda: core.LevelOverhangByConstituency(
-                constituency_evaluator=core.ByConstituency(ev, apportioner=cty_seats), overall_evaluator=ev,
-            ).calculate(votes, n_seats, prev_gains=direct), 10)
-        except Exception as e:   # noqa
-            continue
-        if nontrivial(dict(prev=[1])):
-            ctx.nontrivial.add(common.case_hash(case))
-        if i % 5 == 0:
-            # default overall evaluator (sum of the constituency results): must answer with a non-negative adjustment
-            r2 = common.call_impl(lambda: core.LevelOverhangByConstituency(
-                constituency_evaluator=core.ByConstituency(ev, apportioner=ev)).calculate(votes, n_seats, prev_gains=direct), 10)
-            if not (r2[0] == 'ok' and r2[1] >= 0) and not (r2[0] == 'err' and r2[1] in (common.E['TIMEOUT'], common.E['VSE'], common.E['VALUE'])):  # VALUE: house 0
-                bad += 1
-                ctx.violations.append(dict(stream='by-constituency', case=dict(case, overall_evaluator=None), impl=str(r2), model='n/a',
-                                           why='LevelOverhangByConstituency without overall_evaluator: %s' % (r2,)))
-        got = r[1] if r[0] == 'ok' else ('error', r[2])
-        if got != want:
-            bad += 1
-            ctx.violations.append(dict(stream='by-constituency', case=case, impl=str(got), model='reference %d' % want,
-                                       why='LevelOverhangByConstituency reports %s, the smallest admissible enlargement is %d' % (got, want)))
-    ctx.streams['by-constituency'] = dict(cases=count, deviations=bad)
+        cur = dict(votes={c: draw_votes(c) for c in ctys}, direct=draw_direct())
+        steps, varied = [cur], ['first']
+        for _ in range(rng.choice([0, 0, 0, 1, 2, 3])):
+            cur = copy.deepcopy(cur)
+            a = rng.choice(['votes', 'votes', 'votes', 'cty-votes', 'direct', 'back'])
+            if a == 'votes':
+                cur['votes'] = {c: draw_votes(c) for c in ctys}
+            elif a == 'cty-votes':
+                c = rng.choice(ctys)
+                cur['votes'][c] = draw_votes(c)
+            elif a == 'direct':
+                cur['direct'] = draw_direct()
+            else:
+                cur = copy.deepcopy(rng.choice(steps))
+            steps.append(cur)
+            varied.append(a)
+        for i, e in enumerate(steps):
+            if dist is not None:
+                dist['by-constituency-varied:' + varied[i]] += 1
+            made += 1
+            yield dict(ev=evn, votes=e['votes'], cty_seats=cty_seats, direct=e['direct'], history=steps[:i], varied=varied[i],
+                       default=made % 5 == 0)
 
 
-def corpus():
+def by_constituency_checks(ctx, rng, count):
+    """LevelOverhangByConstituency against an independent search (inner evaluators used as black boxes), alone and inside
+    AdjustedSeatCount / MultistageDistributor (DE shape), on fresh and on reused objects"""
+    import itertools
+    bad = n = 0
+    for case in itertools.chain(corpus(by_constituency=True), gen_bc(rng, count, ctx.dist)):
+        ctx.evaluations += 1
+        n += 1
+        bad += bc_check(ctx, case)
+    ctx.dist['stream:by-constituency'] += n
+    ctx.streams['by-constituency'] = dict(cases=n, deviations=bad)
+
+
+def corpus(by_constituency=False):
     import os, json, glob
     for p in sorted(glob.glob(os.path.join(common.VERIF, 'corpus', ID, '*.json'))):
-        yield json.load(open(p))
+        c = json.load(open(p))
+        if ('cty_seats' in c) == by_constituency:
+            yield c
 
 
 def explore(ctx, widen=1):
     kw = dict(canon=canon, nontrivial=nontrivial, spec=spec, known_class=known_class, limit=10)
     ctx.differential('corpus', corpus(), model_line, impl, **kw)
     ctx.differential('random', gen(ctx.rng, ctx.n(1500, 20000) * widen), model_line, impl, **kw)
+    ctx.differential('reuse', gen_reuse(ctx.rng, ctx.n(350, 4000) * widen, ctx.dist), model_line, impl, **kw)
     ctx.differential('alabama', gen_alabama(ctx.rng, ctx.n(300, 3000) * widen), model_line, impl, **kw)
     by_constituency_checks(ctx, ctx.rng, ctx.n(400, 5000))
 
 
 def replay(ctx, case, stream=None):
+    if stream == 'by-constituency' or 'cty_seats' in case:
+        bc_check(ctx, case)
+        return
     ctx.differential('replay', [case], model_line, impl, canon=canon, nontrivial=nontrivial, spec=spec, known_class=known_class)
